@@ -21,7 +21,11 @@ RULE = ("histories of 1-60 generate(n)/skip(n) requests on one generator "
         "skip + one request) decides chunking independence without internals.  "
         "Signature = (shape kind, L, Fd class, Ts, decade of position, request "
         "size, previous op); non-trivial = a request answered after at least "
-        "one earlier request or skip.")
+        "one earlier request or skip.  Request/skip sizes are passed as Python "
+        "ints or np.int16/32/64; every returned chunk is held by reference and "
+        "re-compared after later requests; the module-level "
+        "generate_jakes_samples() is driven in chains that pass the returned time "
+        "and the same phases back in (start indexes up to 1e10).")
 ASSUMPTIONS = [
     "sample k is compared within sqrt(L) (2 pi Fd t_k eps 40 + 1e-12): any "
     "implementation that forms k*Ts in double meets it, a relative drift of "
@@ -123,6 +127,7 @@ def case_history(ctx, rng, idx):
     else:
         ctx.ev("sample-equals-model", True)
     k = 1                       # the constructor produced sample 0
+    held = None
     pending = []
     hist = ["ctor"]
     force_pos = [None, 1e3, 1e5, 1e7, 1e9, 1e10][int(rng.integers(0, 6))]
@@ -133,8 +138,11 @@ def case_history(ctx, rng, idx):
                 int(10.0 ** rng.uniform(0, 9.5))
             if k + nskip > 2e10:
                 nskip = 1
-            okc, _ = ctx.call("request-shape", g.skip_samples_for_next_generation, nskip,
-                              detail={**tag, "skip": nskip, "k": k})
+            stype = [int, int, np.int64, np.int32][int(rng.integers(0, 4))]
+            if stype is np.int32 and nskip >= 2 ** 31:
+                stype = np.int64
+            okc, _ = ctx.call("request-shape", g.skip_samples_for_next_generation, stype(nskip),
+                              detail={**tag, "skip": nskip, "skip_type": stype.__name__, "k": k})
             if not okc:
                 return
             k += nskip
@@ -168,12 +176,25 @@ def case_history(ctx, rng, idx):
             n //= 10
         n = max(n, 1)
         use_none = n == 1 and rng.random() < 0.3
-        d = lambda **e: (lambda: {**tag, "k": k, "n": n, "history": hist[-8:], **e})
+        # the request size as the caller happens to hold it: a Python int or a
+        # fixed-width numpy integer
+        ntype = [int, int, np.int64, np.int32, np.int16][int(rng.integers(0, 5))]
+        if ntype is np.int16 and n > 32000:
+            ntype = np.int32
+        d = lambda **e: (lambda: {**tag, "k": k, "n": n, "n_type": ntype.__name__,
+                                  "history": hist[-8:], **e})
         okc, _ = ctx.call("request-shape", g.generate_more_samples,
-                          *(() if use_none else (n,)), cls="generate-raised", detail=d())
+                          *(() if use_none else (ntype(n),)), cls="generate-raised", detail=d())
         if not okc:
             return
-        s = np.asarray(g.get_samples())
+        if held is not None:
+            # a chunk handed out earlier belongs to the caller (a stretch is
+            # collected chunk by chunk): later requests must not change it
+            ctx.ev("chunking-independent", np.array_equal(held[0], held[1]),
+                   cls="earlier-chunk-changed-by-later-request", detail=d(earlier_request=held[2]))
+        s = g.get_samples()
+        held = (s, np.array(s, copy=True), "k=%d n=%d" % (k, n))
+        s = np.asarray(s)
         okshape = s.shape == st + (n,)
         ctx.ev("request-shape", okshape, cls="wrong-count-or-shape",
                detail=d(got=s.shape, want=st + (n,)))
@@ -238,11 +259,65 @@ def case_history(ctx, rng, idx):
     ctx.sample("history", {**tag, "history": hist[:12], "final_position": k})
 
 
+def case_function(ctx, rng, idx):
+    """The module-level entry point generate_jakes_samples(): a stretch is
+    continued by passing the returned time and the same phases back in."""
+    shape = [None, (2,), (3, 2)][idx % 3]
+    Ts = TS[(idx // 3) % len(TS)]
+    Fd = [0.0, 5.0, 100.0, 0.3 / Ts, float(10.0 ** rng.uniform(-3, math.log10(0.3 / Ts)))][
+        (idx // (3 * len(TS))) % 5]
+    if Fd * Ts > 0.5:
+        Fd = 0.3 / Ts
+    L = int(rng.integers(1, 21))
+    st = shape_tuple(shape)
+    cells = int(np.prod(st)) if st else 1
+    phi = rng.random((L,) + st + (1,)) * 2 * np.pi
+    psi = rng.random((L,) + st + (1,)) * 2 * np.pi
+    k = 0 if rng.random() < 0.3 else int(10.0 ** rng.uniform(0, 10))
+    t = k * Ts
+    tag = {"Fd": Fd, "Ts": Ts, "L": L, "shape": shape, "start_index": k, "entry": "function"}
+    steps = 0
+    for r in range(int(rng.integers(1, 9))):
+        n = NS[int(rng.integers(0, len(NS)))] if rng.random() < 0.6 else \
+            int(10.0 ** rng.uniform(0, 5.3))
+        while n * L * cells > 3e5:
+            n //= 10
+        n = max(n, 1)
+        d = lambda **e: (lambda: {**tag, "k": k, "n": n, "request": r, "current_time": t, **e})
+        okc, res = ctx.call("request-shape", FG.generate_jakes_samples, Fd, Ts, n, L, shape, t,
+                            phi, psi, cls="function-raised", detail=d())
+        if not okc:
+            return
+        t2, h = res
+        h = np.asarray(h)
+        okshape = h.shape == st + (n,)
+        ctx.ev("request-shape", okshape, cls="function:wrong-count-or-shape",
+               detail=d(got=h.shape, want=st + (n,)))
+        if not okshape:
+            return
+        steps += 1
+        tk = float((k + n) * Ts)
+        ctx.ev("magnitude-bound", bool(np.all(np.abs(h) <= math.sqrt(L) * (1 + 8 * EPS))),
+               detail=d(max=float(np.abs(h).max())))
+        pick = np.unique(np.concatenate([[0, n - 1], rng.integers(0, n, size=min(n, 6))]))
+        hm = model_samples(phi, psi, Fd, Ts, L, k + pick)
+        tol = math.sqrt(L) * (2 * math.pi * Fd * tk * EPS * (40 + 4 * steps) + 1e-12)
+        err = float(np.max(np.abs(h[..., pick] - hm)))
+        ctx.stat("sample-equals-model", err / tol)
+        ctx.ev("sample-equals-model", err <= tol, n=len(pick), cls="function",
+               detail=d(error=err, tolerance=tol, got=h[..., pick].ravel()[:3],
+                        want=hm.ravel()[:3]))
+        ctx.sig("fn", len(st), Ts, int(math.log10(max(k, 1))), n, r > 0)
+        k += n
+        t = t2
+
+
 def classify(w):
     return None
 
 
-GENS = {"history": Gen(case_history, 1000, 8000)}
+GENS = {"history": Gen(case_history, 1000, 8000),
+        "function": Gen(case_function, 600, 60000)}
 MIN_EVALS = {"request-shape": 2000, "sample-equals-model": 5000,
              "chunking-independent": 1000, "magnitude-bound": 2000,
              "zero-doppler-constant": 300}
